@@ -223,23 +223,24 @@ func (x *wsOracle) poison(data []byte, where, detail string) {
 func (x *wsOracle) after(call, fed int, err error) {
 	t := x.ep.T
 	hc, hm := x.ep.C.VerifSeqHandles()
-	if hc != nil && !t.IsLive(hc) {
+	if hc != nil && track.Overlaps(*hc, x.ep.LastPiece) {
+		t.Note("read-buffer-retained", "read-buffer-retained use=Conn.bytesCached",
+			fmt.Sprintf("the Conn's input cache lies in the read buffer the caller passed to Parse and reuses for the next read (the Conn keeps memory it does not own), after Parse call %d", call+1))
+	}
+	if hc != nil && t.IsFreed(hc) {
+		// a pointer to a released buffer that is kept but (so far) not used is not a violation
 		x.o.dangling++
 	} else if hc != nil && len(*hc) > 0 && len(*hc) <= fed {
 		cached := *hc
 		x.o.tailChecks++
 		w1, w2 := x.wire[fed-len(cached):fed], x.plain[fed-len(cached):fed]
-		poisonAt, scribble, other := -1, -1, -1
+		poisonAt, other := -1, -1
 		for i, c := range cached {
 			switch {
 			case c == w1[i] || c == w2[i]:
 			case c == track.PoisonByte:
 				if poisonAt < 0 {
 					poisonAt = i
-				}
-			case c == wsgen.ScribbleByte:
-				if scribble < 0 {
-					scribble = i
 				}
 			default:
 				other = i
@@ -249,15 +250,15 @@ func (x *wsOracle) after(call, fed int, err error) {
 		if poisonAt >= 0 {
 			x.poison(cached, "Conn.bytesCached", detail)
 		}
-		if scribble >= 0 {
-			t.Note("read-buffer-retained", "read-buffer-retained use=Conn.bytesCached",
-				"the Conn's input cache changes when the caller reuses the read buffer it passed to Parse (the cache aliases memory the Conn does not own)"+detail)
-		}
 		if other >= 0 {
 			x.o.tailDiffs++
 		}
 	}
-	if hm != nil && !t.IsLive(hm) {
+	if hm != nil && track.Overlaps(*hm, x.ep.LastPiece) {
+		t.Note("read-buffer-retained", "read-buffer-retained use=Conn.message",
+			fmt.Sprintf("the message under assembly lies in the read buffer the caller passed to Parse and reuses for the next read (after Parse call %d)", call+1))
+	}
+	if hm != nil && t.IsFreed(hm) {
 		x.o.dangling++
 	} else if err == nil && !x.ep.Fake.Closed && !x.ep.Cleaned && !x.ep.Cfg.NoOnMessage {
 		var want []byte
